@@ -1172,6 +1172,45 @@ def part_bc(ck, im, rng, cases, n_progs, n_seqs):
                       tag + ' (Function.forward along the chain)\n' + '\n---\n'.join(g.format() for g in chain), None))
 
 
+def coq_eval(ck, cases, check_fn, case_type, tag, shard=600, block=50, jobs=12, timeout=1200):
+    """`check_fn case = true` decided in Coq for every case; returns the failing
+    indices.  Like Check.coq_eval_mismatches, but with binary (N) indices (a
+    unary `nat` index costs its value to elaborate) and the case list split
+    into small definitions (one long list literal is superlinear to elaborate)."""
+    from ..common import COQ, sh
+    names = []
+    for si in range(0, len(cases), shard):
+        part = cases[si:si + shard]
+        name = f'{tag}_{si // shard:04d}'
+        text = [HEADER, 'From Coq Require Import NArith.']
+        defs = []
+        for bi in range(0, len(part), block):
+            d = f'blk{bi // block}'
+            defs.append(d)
+            body = ';\n'.join(f'({si + bi + j}%N, {c})' for j, c in enumerate(part[bi:bi + block]))
+            text.append(f'Definition {d} : list (N * {case_type}) := [\n{body}\n].')
+        text.append('Definition bad := map fst (filter (fun ic => negb (' + check_fn + ' (snd ic))) (' + ' ++ '.join(defs) + ')).')
+        text.append('Eval vm_compute in bad.')
+        (ck.dir / f'{name}.v').write_text('\n'.join(text) + '\n')
+        names.append(name)
+    if not names:
+        return [], None
+    cmd = (f"xargs -P{jobs} -I{{}} sh -c 'timeout {timeout} coqc -Q {COQ} FpyV -Q . Dyn {{}}.v > {{}}.out 2>&1 || echo FAIL >> {{}}.out'")
+    sh(cmd, cwd=ck.dir, input='\n'.join(names), timeout=timeout * (len(names) // jobs + 1) + 60)
+    bad, err = [], None
+    for name in names:
+        out = (ck.dir / f'{name}.out').read_text()
+        m = re.search(r'=\s*\[(.*?)\]\s*:\s*list N', out, re.S)
+        if 'FAIL' in out or not m:
+            err = (err or '') + f'{name}: {out[-500:]}\n'
+            continue
+        body = m.group(1).strip()
+        if body:
+            bad += [int(x.replace('%N', '').strip()) for x in body.split(';')]
+    ck.checker_cmds.append(f'coqc -Q coq FpyV build/{ck.pid}/{tag}_*.v  # {check_fn} on {len(cases)} cases')
+    return sorted(bad), err
+
+
 def run(ck):
     thorough = ck.tier == 'thorough'
     ck.trusted += [
@@ -1204,7 +1243,7 @@ def run(ck):
     for t, d, _ in cases[:2] + cases[len(cases) // 2:len(cases) // 2 + 2]:
         ck.sample(t[:600])
     ck.log(f'{len(cases)} model cases')
-    bad, err = ck.coq_eval_mismatches(HEADER, 'case19', [c[0] for c in cases], 'check19', chunk=280)
+    bad, err = coq_eval(ck, [c[0] for c in cases], 'check19', 'case19', 'cases')
     if err:
         ck.broken.append('correspondence evaluation failed: ' + err[:500])
     for i in bad:
